@@ -829,7 +829,7 @@ impl Engine for Conc {
                     (false, 1) => Op::IsLeaf { u },
                     (false, 2) => Op::IsConnected { u, k: rng.below(n) },
                     (_, 3) => Op::Snapshot { u },
-                    _ => Op::SnapshotVia { u, style: rng.below(3) as u8 },
+                    _ => Op::SnapshotVia { u, style: rng.below(5) as u8 },
                 });
             }
             tasks.push(reads);
@@ -977,13 +977,17 @@ impl Engine for Conc {
                     let x = rng.range(1, spokes);
                     let f = spokes + 1 + rng.below(free);
                     next_edge += 1;
-                    w.push(match rng.below(10) {
+                    w.push(match rng.below(13) {
                         0..=3 => Op::TryConnect { u: 0, v: f, e: next_edge, h: Prov::Own },
                         4 => Op::TryConnect { u: f, v: 0, e: next_edge, h: Prov::Own },
                         5 | 6 => Op::Disconnect { u: 0, k: x, h: Prov::Own },
                         7 => Op::Disconnect { u: 0, k: f, h: Prov::Own },
                         8 => Op::Connect { u: 0, v: f, e: next_edge, h: Prov::Own },
-                        _ => Op::IsConnected { u: 0, k: f },
+                        9 => Op::IsConnected { u: 0, k: f },
+                        // the hub itself is isolated (a walk over thousands of entries that other
+                        // tasks' calls must not be able to cut into), or one of its spokes
+                        10 | 11 => Op::Isolate { u: 0, h: Prov::Own },
+                        _ => Op::Isolate { u: x, h: Prov::Own },
                     });
                 }
                 tasks.push(w);
@@ -1061,7 +1065,7 @@ impl Engine for Conc {
                 }
                 if let Op::Snapshot { u } = &op {
                     if rng.coin() {
-                        op = Op::SnapshotVia { u: *u, style: rng.below(3) as u8 };
+                        op = Op::SnapshotVia { u: *u, style: rng.below(5) as u8 };
                     }
                 }
                 script.push(op);
